@@ -455,6 +455,29 @@ func typeName(t T) string {
 func Generate(g *G) Program {
 	var sb strings.Builder
 	n := g.o.MaxStmts/2 + g.r.Intn(g.o.MaxStmts/2+1)
+	if !g.o.InModule && g.r.Intn(25) == 0 {
+		// constant-pool ballast: a few hundred distinct constants in front, so that every constant, closure and
+		// module the rest of the program uses gets an index that does not fit one byte
+		g.f("const-ballast")
+		k := 257 + g.r.Intn(140)
+		name := g.fresh("bal")
+		sb.WriteString(name + " := [")
+		for i := 0; i < k; i++ {
+			if i > 0 {
+				sb.WriteString(", ")
+			}
+			switch {
+			case i%11 == 3:
+				sb.WriteString(strconv.Quote("b" + strconv.Itoa(i)))
+			case i%13 == 5:
+				sb.WriteString(strconv.Itoa(i) + ".25")
+			default:
+				sb.WriteString(strconv.Itoa(100000 + i))
+			}
+		}
+		sb.WriteString("]\n")
+		g.declare(name, TArr, true)
+	}
 	for i := 0; i < n; i++ {
 		sb.WriteString(g.Stmt(g.o.MaxDepth, ""))
 		sb.WriteString("\n")
